@@ -234,7 +234,7 @@ macro_rules | `(tactic| invp_step $hi $h $f) => `(tactic|
 theorem compat_startPC (c : Cfg) (n : Nat) (op : Op) : compat (.called op) (startPC c n op) := by
   cases op <;> simp [startPC, compat]
 
-theorem invP_call {c : Cfg} {s s' : State} {t : Nat} {op : Op} (hi : InvP s) (h : stepCall c s t op = some s') : InvP s' := by
+theorem invP_call {c : Cfg} {s s' : State} {t : Nat} {op : Op} {a : Bool} (hi : InvP s) (h : stepCall c s t op a = some s') : InvP s' := by
   unfold stepCall at h
   repeat' split at h
   all_goals (simp at h; try subst h)
@@ -340,7 +340,7 @@ theorem invP_compute {s s' : State} {t : Nat} {fail : Bool} (hi : InvP s) (h : s
 theorem invP_step {c : Cfg} {s s' : State} {t : Nat} {l : Label} (hi : InvP s) (h : step c s t l = some s') :
     InvP s' := by
   cases l <;> simp only [step] at h
-  case call op => exact invP_call hi h
+  case call op a => exact invP_call hi h
   case advance d => simp at h; subst h; exact ⟨hi.wf⟩
   case read => exact invP_read hi h
   case insMap => invp_step hi h stepInsMap
